@@ -63,6 +63,9 @@ pub enum Fault {
     /// F3 (device-wide): the device leaves out keys it has no value for instead of answering
     /// with an empty value (some stores do): every answer may be shorter than requested.
     Sparse,
+    /// F1 (device-wide, content-keyed): the device refuses any request whose range runs past
+    /// the last key of the key space (some stores do, instead of answering short).
+    WrapError { id: u32 },
 }
 
 #[derive(Default, Debug, Clone, Copy)]
@@ -119,6 +122,22 @@ pub fn next_key(mut key: Key) -> Option<Key> {
         }
     }
     None
+}
+
+/// Does the range of `n` keys starting at `key` run past the last key of that length?
+pub fn range_wraps(key: &Key, n: usize) -> bool {
+    let mut k = key.clone();
+    for i in 0..n {
+        match next_key(k) {
+            Some(nk) => k = nk,
+            None => return i + 1 < n,
+        }
+        if i > 64 {
+            // a carry can only travel through trailing MAX words: far from the end after this
+            return false;
+        }
+    }
+    false
 }
 
 pub type StateMap = BTreeMap<(CA, Key), Value>;
@@ -217,6 +236,18 @@ impl SimState {
                 id: ERR_TOO_MANY,
                 what: format!("request for {n} values"),
             });
+        }
+        // F1 (device-wide): a range that runs past the last key is refused
+        for f in &self.inner.faults {
+            if let Fault::WrapError { id } = f {
+                if range_wraps(key, n) {
+                    bump(|f| f.bad_key += 1);
+                    return Err(SimErr {
+                        id: *id,
+                        what: "range runs past the last key".into(),
+                    });
+                }
+            }
         }
         // F1: walk the requested range
         let bad: Vec<(&Option<View>, &CA, &Key, u32)> = self
